@@ -60,6 +60,16 @@ CHECKS = {
    text='Every length 0..300 and +-2 around 64 KiB, 128 KiB and 1 MiB (thorough: 2 MiB) with a position-dependent pattern x 41 name sets (10 Manifest names, unknown names, every parameterless hashlib name, groups, mixes) x 6 size hints x read schedules delivered by a scripted raw stream (all 2^(n-1) compositions for n<=10; 1/2/3/7/4096/65535/65536/65537-byte steps, halving, one short read at every position around each threshold) through hash_file, hash_path, get_file_metadata and gemato hash: digest == one-shot digest of the algorithm the name denotes (independent table, cross-checked with md5sum/sha1sum/sha256sum/sha512sum/b2sum), size == length, unsupported names -> UnsupportedHash only.',
    note='Trusted: CPython hashlib one-shot digests, coreutils as second opinion, refmanifest.HASHES table. Quick tier thins schedules at >=1 MiB (stated in evidence rule). Not covered: would-block reads, real pipes, lengths between the windows.',
    ref='DESIGN.md §3 C17'),
+ 'C06': dict(level='fault_enumeration',
+   technique='exhaustive single-fault enumeration: every environment call of the fault-free run x every errno, plus persistent per-object faults, injected by an owned os/open seam into real verify and update scans',
+   text='For 13 corpus trees (flat, nested and compressed Manifests, sibling and same-directory chains, IGNOREd and hidden parts, file and directory symlinks, unregistered Manifests, trees with a stray file) x 6 operations (library/CLI verify, sub-directory verify, single-path verify, library update scan, CLI update) the fault-free run is recorded call by call; then each call index x each of 8 errnos fails once (26k runs quick; thorough adds all pairs on the smallest tree) and each object fails persistently. A fault on an object outside hidden/IGNOREd subtrees must end in an OSError, a library error or a failing status - never success, never an existing object reported as missing - with the tree byte-identical afterwards and no descriptor left open.',
+   note='Trusted: the monkeypatch seam (os.open/stat/fstat/scandir, DirEntry proxies, builtins.open with a raw read proxy). The kernel is not involved; ENOENT and the save phase are excluded. DONT_CARE: transient DirEntry.is_dir() failures that os.walk itself absorbs when the same object is opened/listed successfully later in the run.',
+   ref='DESIGN.md §3 C06'),
+ 'C13': dict(level='model_checking',
+   technique='exhaustive enumeration of all 5^3 compression assignments x mutations x APIs (result invariance) and of start assignment x boundary watermarks x formats x forced/unforced saves plus all save sequences of length <=3 (4 thorough) on the real save_manifests under a write-audit seam',
+   text='Transparency: one tree with three sub-Manifests under all 125 assignments of {plain, gz, bz2, lzma, xz} x 6 tree mutations x 22 verification/lookup queries - the observation must not depend on the assignment. Watermark: 5 start assignments x every watermark in {0, s-1, s, s+1 for each uncompressed size s, max+1} x 4 target formats x forced/unforced x edits, and every sequence of <=3 (4) saves over a 6-step alphabet (re-compression in both directions): every rewritten sub-Manifest is compressed iff its uncompressed size >= watermark, compressed files keep their format, the top-level Manifest stays plain, one file per logical Manifest, the tree verifies (reference and gemato).',
+   note='Trusted: gverif/refverify.py, sys.addaudithook to observe which Manifests a save wrote. Manifests not rewritten by an unforced save are DONT_CARE. old-ebuild package Manifests are judged under C19.',
+   ref='DESIGN.md §3 C13'),
 }
 NOT_YET = {}
 
